@@ -178,7 +178,99 @@ pub fn ffi(req: &Value) -> Value {
     Value::Object(res)
 }
 
-pub fn fmt(req: &Value) -> Value { json!({"id": req["id"], "todo": true}) }
+// ---------------------------------------------------------------------------------------------
+// C14: the formatter. One request = one text at one width and indent size: format, parse input and
+// output, compare the syntax trees without spans, list the comments, format again.
+fn normalize_ast_debug(s: &str) -> String {
+    // drop white space and every span (`<digits>..<digits>`, printed after nodes and operators)
+    let b: Vec<u8> = s.bytes().filter(|c| !c.is_ascii_whitespace()).collect();
+    let mut out = String::with_capacity(b.len());
+    let mut i = 0;
+    while i < b.len() {
+        if b[i].is_ascii_digit() && (i == 0 || !(b[i - 1].is_ascii_alphanumeric() || b[i - 1] == b'_' || b[i - 1] == b'.')) {
+            let mut j = i;
+            while j < b.len() && b[j].is_ascii_digit() {
+                j += 1;
+            }
+            if j + 1 < b.len() && b[j] == b'.' && b[j + 1] == b'.' {
+                let mut k = j + 2;
+                while k < b.len() && b[k].is_ascii_digit() {
+                    k += 1;
+                }
+                if k > j + 2 {
+                    i = k;
+                    if i < b.len() && b[i] == b',' {
+                        i += 1;
+                    }
+                    continue;
+                }
+            }
+        }
+        out.push(b[i] as char);
+        i += 1;
+    }
+    out
+}
+
+fn comments_of(text: &str) -> Vec<String> {
+    use mimium_lang::compiler::parser::{TokenKind, tokenize};
+    tokenize(text)
+        .iter()
+        .filter(|t| matches!(t.kind, TokenKind::SingleLineComment | TokenKind::MultiLineComment))
+        .map(|t| t.text(text).trim_end().to_string())
+        .collect()
+}
+
+fn ast_of(text: &str, path: Option<std::path::PathBuf>) -> (String, usize) {
+    let (e, _mi, errs) = mimium_lang::compiler::parser::parse_to_expr(text, path);
+    (normalize_ast_debug(&format!("{:?}", e)), errs.len())
+}
+
+pub fn fmt(req: &Value) -> Value {
+    let text = req["text"].as_str().unwrap_or("").to_string();
+    let width = req["width"].as_u64().unwrap_or(80) as usize;
+    let indent = req["indent"].as_u64().unwrap_or(4) as usize;
+    let full = req["full"].as_bool().unwrap_or(false);
+    let r = catch_unwind(AssertUnwindSafe(|| {
+        if let Ok(mut g) = mimium_fmt::GLOBAL_DATA.lock() {
+            g.indent_size = indent;
+        }
+        let path = req["path"].as_str().map(std::path::PathBuf::from);
+        let (ast0, nerr0) = ast_of(&text, path.clone());
+        if nerr0 > 0 {
+            return json!({"status": "invalid_input", "nerr": nerr0});
+        }
+        let out1 = match mimium_fmt::pretty_print_cst(&text, &None, width) {
+            Ok(o) => o,
+            Err(_) => return json!({"status": "refused"}),
+        };
+        let (ast1, nerr1) = ast_of(&out1, path.clone());
+        let out2 = mimium_fmt::pretty_print_cst(&out1, &None, width).ok();
+        let c0 = comments_of(&text);
+        let c1 = comments_of(&out1);
+        let mut v = json!({"status": "ok", "nerr_out": nerr1, "same_ast": ast0 == ast1,
+                           "ast_in": digest(ast0.as_bytes()), "ast_out": digest(ast1.as_bytes()),
+                           "comments_in": c0, "comments_out": c1,
+                           "text1": digest(out1.as_bytes()),
+                           "text2": out2.as_ref().map(|o| digest(o.as_bytes())),
+                           "maxline": out1.lines().map(|l| l.chars().count()).max().unwrap_or(0)});
+        if full {
+            v["out1"] = json!(out1);
+            v["out2"] = json!(out2);
+            v["ast0"] = json!(ast0);
+            v["ast1"] = json!(ast1);
+        }
+        v
+    }));
+    let mut v = match r {
+        Ok(v) => v,
+        Err(e) => json!({"status": "panic", "msg": crate::panic_msg(e), "loc": crate::LAST_PANIC_LOC.with(|l| l.borrow().clone())}),
+    };
+    v["id"] = req["id"].clone();
+    v["width"] = json!(width);
+    v["indent"] = json!(indent);
+    v
+}
 // ---------------------------------------------------------------------------------------------
 // C15: one compilation of one text; what it emits (MIR listing, bytecode listing, WASM bytes, Rust
 // source) travels as text digests, plus the texts themselves when `full` is set.
